@@ -557,7 +557,7 @@ func (m *Manager) resetGroupEarlierUsage(gt *GroupTracker, queuePath string) {
 		for app, u := range appUsersMap {
 			// the user tracker is removed when the user has no usage left: the group tracker can outlive it
 			if ut := m.userTrackers[u]; ut != nil {
-				delete(ut.appGroupTrackers, app)
+				ut.removeGroupForApp(app)
 			}
 		}
 		gt.clearLimits(queuePath)
